@@ -211,6 +211,7 @@ func (w *ksWorld) observe(c fiber.Ctx, id int, final bool) map[string]string {
 	if final {
 		m["Route"] = strings.Clone(c.Route().Path)
 		m["Accepts"] = strings.Clone(c.Accepts("application/json", "text/html"))
+		m["Accepts(params)"] = strings.Clone(c.Accepts("text/plain;format=flowed", "application/json;version=2", "text/html;level=1"))
 		msgs := c.Redirect().Messages()
 		var ms []string
 		for _, x := range msgs {
@@ -396,7 +397,28 @@ func (w *ksWorld) build(cfg fiber.Config) *fiber.App {
 		} else if strings.HasPrefix(ct, "application/x-www-form-urlencoded") {
 			ef = c.Bind().Form(&f)
 		}
+		qm, hm := map[string][]string{}, map[string][]string{}
+		eqm, ehm := c.Bind().Query(&qm), c.Bind().Header(&hm)
 		if w.immutMode && w.immutable && w.yield && w.obsOf(opID(c)) != nil {
+			for _, src := range []struct {
+				name string
+				m    map[string][]string
+			}{{"Bind.QueryMap", qm}, {"Bind.HeaderMap", hm}} {
+				ks := make([]string, 0, len(src.m))
+				for k := range src.m {
+					ks = append(ks, k) // NOT cloned: the map's own key strings
+				}
+				sort.Strings(ks)
+				for _, k := range ks {
+					if k == "Cookie" || k == "Host" || k == "Content-Length" {
+						continue
+					}
+					w.kept = append(w.kept, &kept{req: opID(c), accessor: src.name + ".key", val: k, copy: strings.Clone(k)})
+					for _, v := range src.m[k] {
+						w.kept = append(w.kept, &kept{req: opID(c), accessor: src.name + ".value", val: v, copy: strings.Clone(v)})
+					}
+				}
+			}
 			for _, kv := range [][2]string{{"Bind.Query", q.Q}, {"Bind.Header", hh.A}, {"Bind.Cookie", ck.A}, {"Bind.Form", f.F}, {"Bind.JSON", j.Name}} {
 				if kv[1] != "" {
 					w.kept = append(w.kept, &kept{req: opID(c), accessor: kv[0], val: kv[1], copy: strings.Clone(kv[1])})
@@ -405,6 +427,7 @@ func (w *ksWorld) build(cfg fiber.Config) *fiber.App {
 		}
 		final(c, func(m map[string]string) {
 			m["Bind"] = strings.Clone(fmt.Sprintf("%+v %+v %+v %+v %+v errs=%v|%v|%v|%v|%v", q, hh, ck, f, j, eq != nil, eh != nil, ec != nil, ef != nil, ej != nil))
+			m["BindMaps"] = strings.Clone(fmt.Sprintf("query=%v header[X-A]=%v errs=%v|%v", qm, hm["X-A"], eqm != nil, ehm != nil))
 		})
 		return c.SendString("bound")
 	})
@@ -667,7 +690,8 @@ func ksGenerate(s *simrt.Sim, nconn int, flashValid string) []*ksReq {
 			hdr = append(hdr, [2]string{"Content-Encoding", "identity"}) // a token no decoder handles: the body is used as is
 		}
 		if s.Chance(300) {
-			hdr = append(hdr, [2]string{"Accept", simrt.PickS(s, "text/html", "application/json", "*/*;q=0.1, text/html")})
+			hdr = append(hdr, [2]string{"Accept", simrt.PickS(s, "text/html", "application/json", "*/*;q=0.1, text/html",
+				"application/xml;v=1, text/html", "text/plain;format=flowed, application/json;version=2", "text/plain;format=flowed;q=0.5, application/json;version=2;q=0.9, text/html;level=1")})
 		}
 		if s.Chance(200) {
 			hdr = append(hdr, [2]string{"User-Agent", "ua-" + strconv.Itoa(i)})
